@@ -152,6 +152,12 @@ class VecV:
         self.items = items
 
 
+class IterV:
+    """by-value iterator over a modelled vector: remaining items (immutable; next replaces the local)"""
+    def __init__(self, items):
+        self.items = items
+
+
 class HalfFloat:
     """(integral value) / c for a small positive integer constant c: only floor() / ceil() of it are interpreted.  The f64 quotient of two
     integers below 2^53 rounds to the nearest double of the true quotient, which can only reach an integer when the true quotient is one
